@@ -119,12 +119,14 @@ func c05r7(c *RC) {
 							zero[f.Sel.Name] = true
 						}
 					}
-				case *ast.BinaryExpr: // part.F == nil / "" / 0
+				case *ast.BinaryExpr: // part.F == nil / "" / 0 (either way round)
 					if x.Op == token.EQL {
-						if f, ok := ast.Unparen(x.X).(*ast.SelectorExpr); ok && expr(f.X) == partP {
-							switch expr(x.Y) {
-							case "nil", `""`, "0":
-								zero[f.Sel.Name] = true
+						for _, pair := range [][2]ast.Expr{{x.X, x.Y}, {x.Y, x.X}} {
+							if f, ok := ast.Unparen(pair[0]).(*ast.SelectorExpr); ok && expr(f.X) == partP {
+								switch expr(pair[1]) {
+								case "nil", `""`, "0":
+									zero[f.Sel.Name] = true
+								}
 							}
 						}
 					}
